@@ -392,7 +392,16 @@ def run(ctx):
     ctx.coq()
     drv = ctx.build_driver('Tree')
     h = ctx.build_harness('tree_wb.c', whitebox='Tree')
-    run_impl = lambda cs: ctx.run_lines(h, cs, env=dict(os.environ, H_TIMEOUT='6'))[1]
+    def run_impl(cs):
+        # every case runs in a forked child with a 6 s watchdog (a case needs milliseconds); an isolated TIMEOUT
+        # (machine under load) is re-run once with a longer watchdog before it is judged
+        out = ctx.run_lines(h, cs, timeout=120 + 7 * len(cs), env=dict(os.environ, H_TIMEOUT='6'))[1]
+        slow = [i for i, l in enumerate(out) if 'TIMEOUT' in l]
+        if 0 < len(slow) <= 2 and len(out) == len(cs):
+            again = ctx.run_lines(h, [cs[i] for i in slow], timeout=120, env=dict(os.environ, H_TIMEOUT='15'))[1]
+            for i, l in zip(slow, again):
+                out[i] = l
+        return out
     run_model = lambda cs: ctx.run_lines(drv, cs, args=['model'])[1]
     run_spec = lambda cs: ctx.run_lines(drv, cs, args=['spec'])[1]
     d = vlib.Differential(ctx, 'tree', run_impl, run_model, run_spec, oracle, corr, nontrivial, split, join)
@@ -413,13 +422,13 @@ def run(ctx):
         tg = targeted(ctx, run_model, 150 if quick else 3000, 10 if quick else 25)
         yield tg[:20]
         yield tg[20:]
-        for i in range(0, n, 2000):
-            yield [gen_case(ctx.rng, maxops if j % 4 else 14) for j in range(i, min(n, i + 2000))]
+        for i in range(0, n, 500):
+            yield [gen_case(ctx.rng, maxops if j % 4 else 14) for j in range(i, min(n, i + 500))]
         if not quick:
             ex = exhaustive(4, 6)
             cnt = 0
             while True:
-                chunk = list(itertools.islice(ex, 20000))
+                chunk = list(itertools.islice(ex, 2000))
                 if not chunk:
                     break
                 cnt += len(chunk)
